@@ -916,6 +916,9 @@ func (s *SwapService) ResendLastMessage(swapId string) error {
 	if err != nil {
 		return err
 	}
+	// The action reads and writes the swap data: run it like an event.
+	swap.mutex.Lock()
+	defer swap.mutex.Unlock()
 	action := &SendMessageAction{}
 	event := action.Execute(s.swapServices, swap.Data)
 	if event == Event_ActionFailed {
